@@ -4,6 +4,7 @@ import RzilVerif.Lemmas.HybProg
 import RzilVerif.Lemmas.HybChk
 import RzilVerif.Lemmas.HybSem
 import RzilVerif.Lemmas.HybFragD
+import RzilVerif.Lemmas.VCallSem
 import RzilVerif.Props.C05Compose
 /-!
 # C06 — value-producing side effects (postfix `++`/`--`, sub-routine calls, statement-expressions)
@@ -22,6 +23,10 @@ classes in which the code (and hence the model under `Cfg.asCode`) violates the 
 7. `compileExprH_unhyb`, `evalCH_unhyb`, `decl_post_sim`, `assign_post_sim`, `*_closed`
                                 — simulation for declarations / assignments whose right-hand side contains postfix
                                   operations on locals not otherwise mentioned (repaired configuration `Cfg.fixed`)
+8. `vcall_in_place`, `seqexpr_creates`, `seq_entry_members`, `call_effect_writes_cell`, `seq_entry_value`,
+   `seq_arm_guarded`, `vcall_usr_sim(_closed)`, `example_saturation_agrees`, `witness_inner_arm_call`
+                                — void sub-routine call statements `f(exts…, args…);` and call statement-expressions
+                                  `({ f(exts…, args…); val; })` (the saturation pattern of the shipped instructions)
 -/
 namespace Rzil
 namespace C06
@@ -709,6 +714,195 @@ example : ∃ eff b st' σC', compileStmtH fragEnv (initSt 0) fragStmt = .ok (ef
   · have : [finalLocalNat "x" (execCH noMacros [] 10 fragStmt fragState),
             finalLocalNat "i" (execCH noMacros [] 10 fragStmt fragState),
             finalLocalNat "j" (execCH noMacros [] 10 fragStmt fragState)] = [some 11, some 8, some 2] := by
+      decide +kernel
+    rw [hC] at this; exact this
+
+/-! ## 8. Void sub-routine call statements and call statement-expressions
+
+`set_usr_field(bundle, FIELD, v);` and `({ set_usr_field(bundle, FIELD, v); val; })`.  The routine is read at the
+level of its specification on both sides (`ILSem.lean: writeUsr`, `CSemH.lean: voidCallC`): it writes the 32-bit value
+to the abstract cell `usr:FIELD` of the machine state; the compiled body of `hex_set_usr_field` is not interpreted
+(it stays checked per output). -/
+
+/-- (8a) **a void call statement stays where it stands**: the statement's effect is exactly the call
+    `hex_<name>(exts…, converted arguments…)`; it carries no bare temporaries, and the compiler state afterwards is
+    the state after compiling the arguments (the call itself creates no temporary and pops nothing). -/
+theorem vcall_in_place {env : CEnv} {st st' : HSt} {eff : Option ILEffect} {b : List String}
+    {name : String} {exts : List String} {args : List CExpr} {params : List CT}
+    (h : compileStmtH env st (.vcall name exts args params) = .ok (eff, b, st')) :
+    ∃ cargs, compileArgsH env st args params = .ok (cargs, st') ∧
+      eff = some (.call ("hex_" ++ name) (exts.map (fun x => ILPure.ext (.id x)) ++ cargs)) ∧ b = [] :=
+  invS_vcall h
+
+/-- (8a) the counter advances by the hybrids of the arguments only -/
+theorem vcall_counter {env : CEnv} {st st' : HSt} {eff : Option ILEffect} {b : List String}
+    {name : String} {exts : List String} {args : List CExpr} {params : List CT}
+    (h : compileStmtH env st (.vcall name exts args params) = .ok (eff, b, st')) :
+    st'.hyb = st.hyb + hybCountEs args := by
+  simpa [hybCountS] using compileStmtH_hyb env (.vcall name exts args params) h
+
+/-- (8b) what `({ f(exts…, args…); val; })` leaves behind in the compiler state: one fresh temporary, typed like the
+    value, and one pending entry — appended after the entries that stay pending — whose dependencies are the popped
+    entries of the arguments' and the value's temporaries -/
+theorem seqexpr_creates {env : CEnv} {st st' : HSt} {ce : CE} {name : String} {exts : List String}
+    {args : List CExpr} {params : List CT} {val : CExpr}
+    (h : compileExprH env st (.seqexpr name exts args params val) = .ok (ce, st')) :
+    ∃ cargs s1 cv s2, compileArgsH env st args params = .ok (cargs, s1) ∧ compileExprH env s1 val = .ok (cv, s2) ∧
+      ce.il = .varl s!"h_tmp{s2.hyb}" ∧ ce.ty = cv.ty ∧ st'.hyb = s2.hyb + 1 ∧
+      st'.pending = (popPending s2.pending (tmpsOfPures cargs ++ tmpsOfPure cv.il)).2 ++
+        [seqPend s2 name exts cargs cv.il] := by
+  obtain ⟨cargs, s1, cv, s2, h1, h2, rfl, rfl⟩ := inv_seqexpr h
+  exact ⟨cargs, s1, cv, s2, h1, h2, rfl, rfl, rfl, rfl⟩
+
+/-- (8b) the entry belongs to a statement-expression (so a `?:` arm wraps its effect part in a `BRANCH`),
+    its effect part is the call, its value part `SETL(h_tmpN, val)`, in the order effect-then-value -/
+theorem seq_entry_shape (st : HSt) (name : String) (exts : List String) (cargs : List ILPure) (v : ILPure) :
+    (seqPend st name exts cargs v).gcc = true ∧ (seqPend st name exts cargs v).setFirst = false ∧
+    (seqPend st name exts cargs v).exec = .call ("hex_" ++ name) (exts.map (fun x => ILPure.ext (.id x)) ++ cargs) ∧
+    (seqPend st name exts cargs v).setTmp = .setl s!"h_tmp{st.hyb}" v :=
+  ⟨rfl, rfl, rfl, rfl⟩
+
+/-- (8b) **the call occurs exactly once in the rendered entry**, after the pulled-in dependencies and directly in
+    front of the `SETL` of the temporary (flattened view) -/
+theorem seq_entry_members (st : HSt) (name : String) (exts : List String) (cargs : List ILPure) (v : ILPure) :
+    flatE (seqPend st name exts cargs v).render =
+      flatEs ((popPending st.pending (tmpsOfPures cargs ++ tmpsOfPure v)).1.map Pend.render) ++
+        [vcallEffect name exts cargs, .setl (tmpName st.hyb) v] := by
+  rw [flatE_render]
+  simp [seqPend, vcallEffect, flatE]
+
+/-- (8c) **IL meaning of the call effect**: `hex_set_usr_field(b, FIELD, c)` writes the 32-bit value of `c` to the
+    cell of FIELD (which then counts as written) and changes nothing else -/
+theorem call_effect_writes_cell (ms : MacroSem) (σ : MState) (b fld : String) (carg : ILPure) (x : BitVec 32)
+    (h : evalPure ms σ [] carg = .ok (.bv 32 x)) :
+    ∃ σ', ExecIL ms (vcallEffect "set_usr_field" [b, fld] [carg]) σ σ' ∧
+      σ'.new (usrCell fld) = x.toNat ∧ σ'.written (usrCell fld) = true ∧
+      (∀ k, k ≠ usrCell fld → σ'.new k = σ.new k ∧ σ'.written k = σ.written k) ∧
+      σ'.locals = σ.locals ∧ σ'.mem = σ.mem ∧ σ'.cur = σ.cur ∧ σ'.imm = σ.imm :=
+  ⟨_, ExecIL_vcall_usr h, (usrState_cell σ fld x).1, (usrState_cell σ fld x).2.1, (usrState_cell σ fld x).2.2,
+    rfl, rfl, rfl, rfl⟩
+
+/-- (8c) rendering the entry of `({ set_usr_field(b, FIELD, c); val; })` with nothing pending inside: the cell is
+    written FIRST, then the temporary receives the value `val` has in the state after the call -/
+theorem seq_entry_value (ms : MacroSem) (st : HSt) (b fld : String) (carg v : ILPure) (σ : MState) (x : BitVec 32) (y : Val)
+    (hdeps : (popPending st.pending (tmpsOfPures [carg] ++ tmpsOfPure v)).1 = [])
+    (hc : evalPure ms σ [] carg = .ok (.bv 32 x)) (hv : evalPure ms (usrState σ fld x) [] v = .ok y) :
+    ∃ σ', ExecIL ms (seqPend st "set_usr_field" [b, fld] [carg] v).render σ σ' ∧
+      lookupS s!"h_tmp{st.hyb}" σ'.locals = some y ∧ σ'.new (usrCell fld) = x.toNat ∧
+      σ'.written (usrCell fld) = true ∧
+      (∀ k, k ≠ s!"h_tmp{st.hyb}" → lookupS k σ'.locals = lookupS k σ.locals) :=
+  ⟨_, seq_render_exec ms st b fld carg v σ x y hdeps hc hv, C05.lookupS_setLocal_self _ _ _,
+    (usrState_cell σ fld x).1, (usrState_cell σ fld x).2.1, fun _ hk => C05.lookupS_setLocal_ne hk _ _⟩
+
+/-- (8c) as an arm of `?:` the call is put under the guard (`wrapThen`/`wrapElse` act on every entry that belongs to a
+    statement-expression, `seq_entry_shape`); a guarded call does not run when its arm is not selected: the cell is
+    untouched -/
+theorem seq_arm_guarded (ms : MacroSem) (c : ILPure) (b fld : String) (carg : ILPure) (σ : MState)
+    (hc : evalPure ms σ [] c = .ok (.bool true)) :
+    ExecIL ms (.branch c .empty (vcallEffect "set_usr_field" [b, fld] [carg])) σ σ :=
+  guard_else_true ms c _ σ hc
+
+section
+variable {ms : MacroSem} {WF : MState → CExpr → Prop} {c : Ctx} {env : CEnv}
+
+/-- (8d) **fragment simulation for the void call statement** `set_usr_field(b, FIELD, a);`, relative to the expression
+    theorem `ExprOK ms WF`: `a` built from leaves, casts, unary/binary arithmetic, shifts, comparisons and `!` without
+    value-producing side effects (`postOnly a`, `postsOf a = []`), repaired configuration.  The effect the statement
+    lowers to — executed with NO compiled sub-routine body, i.e. under the specification-level reading — takes an
+    `Inv`-related state to a state `Inv`-related to C's result; both sides have written the same value to the cell. -/
+theorem vcall_usr_sim (hE : C05.ExprOK ms WF) (henv : env.cfg = Cfg.fixed)
+    {st st' : HSt} {b fld : String} {a : CExpr} {eff : Option ILEffect} {bare : List String}
+    (hcomp : compileStmtH env st (.vcall "set_usr_field" [b, fld] [a] [utT]) = .ok (eff, bare, st'))
+    (hfrag : postOnly a = true) (hnop : postsOf a = [])
+    (hWF : C05.WFHyp ms WF c [a]) (hsrc : usrCell fld ∉ c.srcs)
+    {subs : CSubEnv} {σC σIL σC' : MState} {f : Nat}
+    (hinv : C05.Inv c σC σIL)
+    (hex : execCH ms subs (f+1) (.vcall "set_usr_field" [b, fld] [a] [utT]) σC = .ok σC') :
+    ∃ effIL σIL', eff = some effIL ∧ bare = [] ∧ ExecIL ms effIL σIL σIL' ∧ C05.Inv c σC' σIL' ∧
+      st'.pending = st.pending :=
+  vcall_usr_correct hE henv hcomp hfrag hnop hWF hsrc hinv hex
+
+end
+
+/-- (8d) closed: the expression theorem of C02 plugged in, side conditions static -/
+theorem vcall_usr_sim_closed {ms : MacroSem} (hms : MsOK ms) {c : Ctx} {env : CEnv} (henv : env.cfg = Cfg.fixed)
+    {st st' : HSt} {b fld : String} {a : CExpr} {eff : Option ILEffect} {bare : List String}
+    (hcomp : compileStmtH env st (.vcall "set_usr_field" [b, fld] [a] [utT]) = .ok (eff, bare, st'))
+    (hfrag : postOnly a = true) (hnop : postsOf a = []) (hwf : WFES c a = true) (hsrc : usrCell fld ∉ c.srcs)
+    {subs : CSubEnv} {σC σIL σC' : MState} {f : Nat}
+    (hinv : C05.Inv c σC σIL)
+    (hex : execCH ms subs (f+1) (.vcall "set_usr_field" [b, fld] [a] [utT]) σC = .ok σC') :
+    ∃ effIL σIL', eff = some effIL ∧ bare = [] ∧ ExecIL ms effIL σIL σIL' ∧ C05.Inv c σC' σIL' ∧
+      st'.pending = st.pending := by
+  refine vcall_usr_correct (C05.exprOK_of_C02 hms) henv hcomp hfrag hnop ?_ hsrc hinv hex
+  intro e he σ vC hs hev
+  simp only [List.mem_singleton] at he
+  subst he
+  exact C05.WFE_of_static ms hs e hwf hev
+
+/-! ### non-vacuity and witnesses for section 8 -/
+
+def ovf : String := "HEX_REG_FIELD_USR_OVF"
+def setOvf (val : CExpr) : CExpr := .seqexpr "set_usr_field" ["bundle", ovf] [.lit 1 false ""] [utT] val
+
+/-- observation including the abstract cell: (`.new`, written) of `usr:HEX_REG_FIELD_USR_OVF` -/
+def obsUsr (regs : List String) : Except Stuck MState → Stuck ⊕ (List Nat × Nat × Bool)
+  | .ok σ => .inr (regs.map σ.new, σ.new (usrCell ovf), σ.written (usrCell ovf))
+  | .error e => .inl e
+
+/-- the saturation pattern `{ RdV = (RsV < 100) ? RsV : ({ set_usr_field(bundle, HEX_REG_FIELD_USR_OVF, 1); 100; }); }` -/
+def progSat : List CStmt :=
+  [ .assign (.reg "RdV" .dst s32) "=" (.tern (.cmp "<" (.reg "RsV" .src s32) (.lit 100 false ""))
+      (.reg "RsV" .src s32) (setOvf (.lit 100 false ""))) ]
+
+set_option maxRecDepth 100000 in
+/-- the emitted tree: the guarded call, the unconditional `SETL` of the temporary, the register write — the call
+    occurs exactly once -/
+theorem example_saturation_tree :
+    emittedOrder progSat = ["hex_set_usr_field", "h_tmp0", "Rd_op"] := by decide +kernel
+
+set_option maxRecDepth 100000 in
+/-- C and the emitted IL agree on both paths: no saturation (`RsV = 5`: `RdV = 5`, cell untouched) and saturation
+    (`RsV = 500`: `RdV = 100`, cell = 1 and written) -/
+theorem example_saturation_agrees :
+    obsUsr ["Rd_op"] (runC progSat 20 (startSt 5 0)) = .inr ([5], 0, false) ∧
+    obsUsr ["Rd_op"] (runIL progSat 20 (startSt 5 0)) = .inr ([5], 0, false) ∧
+    obsUsr ["Rd_op"] (runC progSat 20 (startSt 500 0)) = .inr ([100], 1, true) ∧
+    obsUsr ["Rd_op"] (runIL progSat 20 (startSt 500 0)) = .inr ([100], 1, true) := by decide +kernel
+
+/-- `{ RdV = (PuV ? (RsV ? ({ set_usr_field(bundle, HEX_REG_FIELD_USR_OVF, 1); 7; }) : 8) : RtV); }`: the
+    statement-expression is an arm of the INNER `?:` (shape of the shipped `S2_asl_r_r_sat` / `S2_asr_r_r_sat`) -/
+def progInnerArm : List CStmt :=
+  [ .assign (.reg "RdV" .dst s32) "=" (.tern (.reg "PuV" .src ⟨true, 8⟩)
+      (.tern (.reg "RsV" .src s32) (setOvf (.lit 7 false "")) (.lit 8 false "")) (.reg "RtV" .src s32)) ]
+
+set_option maxRecDepth 100000 in
+/-- **a call statement-expression as an arm of an inner `?:` is guarded by the inner condition only**: with `PuV = 0`
+    (outer arm not selected) and `RsV ≠ 0`, C leaves the cell alone and gives `RdV = RtV = 77`; the emitted IL gives
+    the same `RdV` but HAS written the cell.  (Class `hybrid_in_ternary_arm` of the known findings.) -/
+theorem witness_inner_arm_call :
+    obsUsr ["Rd_op"] (runC progInnerArm 20 (startSt 5 0)) = .inr ([77], 0, false) ∧
+    obsUsr ["Rd_op"] (runIL progInnerArm 20 (startSt 5 0)) = .inr ([77], 1, true) ∧
+    -- outer arm selected: both sides agree
+    obsUsr ["Rd_op"] (runC progInnerArm 20 (startSt 5 1)) = .inr ([7], 1, true) ∧
+    obsUsr ["Rd_op"] (runIL progInnerArm 20 (startSt 5 1)) = .inr ([7], 1, true) := by decide +kernel
+
+/-- non-vacuity of (8d): `set_usr_field(bundle, HEX_REG_FIELD_USR_OVF, i + 1);` from `i = 7` -/
+def vcStmt : CStmt := .vcall "set_usr_field" ["bundle", ovf] [.bin "+" (.var "i" u32) (.lit 1 false "")] [utT]
+
+set_option maxRecDepth 100000 in
+example : ∃ eff b st' σC', compileStmtH fragEnv (initSt 0) vcStmt = .ok (eff, b, st') ∧
+    execCH noMacros [] 10 vcStmt fragState = .ok σC' ∧
+    (∃ effIL σIL', eff = some effIL ∧ b = [] ∧ ExecIL noMacros effIL fragState σIL' ∧ C05.Inv fragCtx σC' σIL' ∧
+      st'.pending = []) ∧
+    (σC'.new (usrCell ovf), σC'.written (usrCell ovf)) = (8, true) := by
+  obtain ⟨⟨eff, b, st'⟩, hcomp⟩ := C05.isOk_elim (x := compileStmtH fragEnv (initSt 0) vcStmt) (by decide +kernel)
+  obtain ⟨σC', hC⟩ := C05.isOk_elim (x := execCH noMacros [] 10 vcStmt fragState) (by decide +kernel)
+  refine ⟨eff, b, st', σC', hcomp, hC, ?_, ?_⟩
+  · exact vcall_usr_sim_closed msOK_noMacros (c := fragCtx) rfl hcomp (by decide) (by decide) (by decide +kernel)
+      (by decide) fragInv hC
+  · have : (match execCH noMacros [] 10 vcStmt fragState with
+        | .ok σ => (σ.new (usrCell ovf), σ.written (usrCell ovf)) | .error _ => (0, false)) = (8, true) := by
       decide +kernel
     rw [hC] at this; exact this
 
